@@ -54,6 +54,7 @@ THEOREMS = [
     "Measured.Obligations.FlatTemp.temperature_round_trip",
     "Measured.Obligations.FlatTemp.routes_ok", "Measured.Obligations.FlatTemp.temperature_route_independent",
     "Measured.Obligations.FlatTemp.temperature_sub",
+    "Measured.Obligations.History.after_any_history",
 ]
 # floats/Decimals vs the exact model: an affine conversion subtracts numbers of the size of the
 # offsets (273.15, 459.67), so rounding is amplified by the cancellation ratio; the generator keeps
@@ -61,7 +62,7 @@ THEOREMS = [
 RTOL = 1e-9
 QUICK = {"chunks": 4, "ops": 1200}
 THOROUGH = {"chunks": 16, "ops": 6000}
-LEAN_TARGETS = ["Props.C10", "Obligations.C10", "Obligations.C10Flat"]
+LEAN_TARGETS = ["Props.C10", "Obligations.C10", "Obligations.C10Flat", "Obligations.History"]
 THOROUGH_TARGETS = ["ObligationsFull.C10Full"]
 RULE = ("(source scale, source prefix, target scale, target prefix, magnitude) tuples: pairs and prefixes enumerated "
         "round-robin so that every ordered pair x every registered SI prefix occurs, magnitudes from a fixed interesting set "
